@@ -164,7 +164,10 @@ def handle (line : String) : String :=
       let (st, outs) := ds.foldl (fun (acc : Pkt × List String) d =>
         let s1 := acc.1.append d
         let (r, s2) := s1.sniffUdp o
-        (s2, acc.2 ++ [s!"{resStr r}/{boolStr s2.needMore}/{s2.nextRead}/{s2.cryptos.length}"])) (({} : Pkt), [])
+        let rs := match r, extractSni (newLinear s2.cryptos) with
+          | .ok _, .ok raw => if nonAscii raw then "nonascii" else resStr r
+          | _, _ => resStr r
+        (s2, acc.2 ++ [s!"{rs}/{boolStr s2.needMore}/{s2.nextRead}/{s2.cryptos.length}"])) (({} : Pkt), [])
       let intact := st.data == [[]] ++ ds
       " ".intercalate outs ++ s!" intact={boolStr intact}"
     | _, _ => "bad-op"
